@@ -160,10 +160,13 @@ class SimulationProductState(
         columns = []
         selected_order: list[ops.Qid] = []
         q_set = set(qubits)
+        # One generator for all factors: an integer seed given to each of them would make the
+        # samples of independent factors perfectly correlated.
+        prng = value.parse_random_state(seed)
         for v in dict.fromkeys(self.sim_states.values()):
             qs = [q for q in v.qubits if q in q_set]
             if any(qs):
-                column = v.sample(qs, repetitions, seed)
+                column = v.sample(qs, repetitions, prng)
                 columns.append(column)
                 selected_order += qs
         stacked = np.column_stack(columns)
